@@ -167,7 +167,14 @@ Print Assumptions C08_readdir_sites_insensitive.
 
 (* The configuration is read-only during a compilation: no assignment to a field
    of utils.Params (or below one) is reachable from the compile roots, except the
-   documented symbol table of the intern() builtin.  A new write breaks this. *)
+   documented symbol table of the intern() builtin.  A new write breaks this.
+   For that one admitted write the VALUE written must itself be order independent:
+   a new symbol gets its id in program order (the next id), not by anything that
+   ranges over the table (a map).  That is checked on the implementation by the
+   intern program family of the harness (3, 6 and 12 distinct symbols, fresh and
+   preloaded tables, 96+ compilations each and child processes: keys
+   c08:intern:symbol-ids-differ and c08:intern:ids-not-in-program-order); a map
+   range in Intern.intern additionally breaks C08_sites_insensitive. *)
 Theorem C08_params_readonly : forallb param_write_allowed MapSites.param_writes = true.
 Proof. exact params_readonly_inventory. Qed.
 Print Assumptions C08_params_readonly.
